@@ -29,7 +29,17 @@ REQUIRED_LABELS = {t: ["history", "reconnect", "hb-fault", "v1", "cmd:getPubKey"
                        "cmd:signerHeartbeat", "cmd:uiHeartbeat", "uihb:ok", "uihb:device-error",
                        "diff:0", "diff:max", "sig:0x31", "stale-frame-refused|stale-frame-accepted"] for t in ("quick", "thorough")}
 
-h32 = st.binary(min_size=32, max_size=32)
+def datum(n):
+    """n bytes the device holds: anything - also data that ends like a status word or begins
+    like the framing bytes of an answer (the host must take the datum as it is)."""
+    plain = st.binary(min_size=n, max_size=n)
+    return st.one_of(plain, plain, plain, st.tuples(plain, st.sampled_from(
+        [b"\x90\x00", b"\x6f\x00", b"\x61\x00", b"\x00\x00"])).map(lambda t: t[0][:-2] + t[1]),
+        st.tuples(plain, st.sampled_from([b"\x80\x04", b"\x80\x20\x01", b"\x90\x00"])).map(
+            lambda t: (t[1] + t[0])[:n]))
+
+
+h32 = datum(32)
 
 
 @st.composite
@@ -46,11 +56,12 @@ def one_query(draw, tier):
     c = {"cmd": cmd}
     if cmd == "getPubKey":
         c["path"] = draw(st.sampled_from(refs.ALL_PATHS))
-        c["keys"] = [draw(st.binary(min_size=65, max_size=65)) for _ in refs.ALL_PATHS]
+        c["keys"] = [draw(datum(65)) for _ in refs.ALL_PATHS]
     elif cmd == "blockchainState":
         c["hashes"] = [draw(h32) for _ in SELECTORS]
         c["difficulty"] = draw(st.one_of(
-            st.sampled_from([0, 1, 255, 256, 2 ** 288 - 1, 2 ** 287]),
+            st.sampled_from([0, 1, 255, 256, 2 ** 288 - 1, 2 ** 287, 0x9000, 0x019000,
+                             (2 ** 200) * 65536 + 0x9000]),
             st.integers(0, 2 ** 288 - 1),
             st.integers(1, 36).flatmap(lambda n: st.integers(0, 2 ** (8 * n) - 1))))
         c["flags"] = [draw(st.integers(0, 1)) for _ in range(3)]
@@ -66,12 +77,12 @@ def one_query(draw, tier):
         c["network"] = draw(st.sampled_from([1, 2, 3]))
     else:
         ui = cmd == "uiHeartbeat"
-        c["ud"] = draw(st.binary(min_size=32 if ui else 16, max_size=32 if ui else 16))
+        c["ud"] = draw(datum(32 if ui else 16))
         c["sig"] = draw(sigs())
         c["prefix"] = draw(st.one_of(st.just(b"HSM:UI:HB:5.4:" if ui else b"HSM:SIGNER:HB:5.4:"),
                                      st.binary(max_size=40)))
         c["hash"] = draw(h32)
-        c["pubkey"] = draw(st.binary(min_size=65, max_size=65))
+        c["pubkey"] = draw(datum(65))
         # decoys: the heartbeat of the other app must not leak into this one
         c["other"] = {"sig": draw(sigs()), "hash": draw(h32),
                       "pubkey": draw(st.binary(min_size=65, max_size=65))}
